@@ -475,6 +475,9 @@ package stree
 //@   requires [C03] treeRO(n, compare)
 //@   ensures [C03] ord: ordPath(result, compare)
 //@   ensures [C03] present: inK(n, rank(compare, key)) <==> (len(result) > 0 && ord(compare, key, result[len(result) - 1].X) == 0)
+//@   ensures [C03] keySide: forall j int, k int :: {result[j], k in n.keys} 0 <= j && j < len(result) && k in n.keys && !(k in result[j].keys) ==> ((k < rank(compare, key)) <==> (k < rank(compare, result[j].X)))
+//@   loop 1: invariant [C03] keySide: forall j int, k int :: {path[j], k in n.keys} 0 <= j && j < len(path) && k in n.keys && !(k in path[j].keys) ==> ((k < rank(compare, key)) <==> (k < rank(compare, path[j].X)))
+//@   loop 1: invariant [C03] keySideCur: cur != nil ==> forall k int :: {k in n.keys} k in n.keys && !(k in cur.keys) ==> ((k < rank(compare, key)) <==> (k < rank(compare, cur.X)))
 //@   loop 1: invariant [C03] ord: ordPath(path, compare) && (cur != nil ==> n != nil && cur in n.desc)
 //@   loop 1: invariant [C03] search: inK(n, rank(compare, key)) <==> inK(cur, rank(compare, key))
 //@   ensures [C03] path: nodePath(result) && (n == nil <==> len(result) == 0) && (len(result) > 0 ==> result[0] == n)
